@@ -16,10 +16,12 @@
 (***************************************************************************)
 EXTENDS Naturals, Sequences, FiniteSets
 
-Matches(k, prefixGiven) == (~prefixGiven) \/ k.under
+(* prefixKey = 0: the prefix is the directory (when given); prefixKey = i: *)
+(* the prefix is the complete name of key i - the listing is that key     *)
+Matches(k, prefixGiven, prefixKey) == IF prefixKey # 0 THEN k.n = prefixKey ELSE (~prefixGiven) \/ k.under
 
 (* what the service will send: the matching keys, in key order            *)
-Served(keys, prefixGiven) == SelectSeq(keys, LAMBDA k : Matches(k, prefixGiven))
+Served(keys, prefixGiven, prefixKey) == SelectSeq(keys, LAMBDA k : Matches(k, prefixGiven, prefixKey))
 
 (* the pages of a listing                                                 *)
 RECURSIVE Pages(_, _)
@@ -28,14 +30,14 @@ Pages(s, size) ==
   ELSE IF Len(s) <= size THEN <<s>>
   ELSE <<SubSeq(s, 1, size)>> \o Pages(SubSeq(s, size + 1, Len(s)), size)
 
-ListingPages(keys, prefixGiven, size) ==
-  LET sv == Served(keys, prefixGiven) IN IF sv = <<>> THEN << <<>> >> ELSE Pages(sv, size)
+ListingPages(keys, prefixGiven, prefixKey, size) ==
+  LET sv == Served(keys, prefixGiven, prefixKey) IN IF sv = <<>> THEN << <<>> >> ELSE Pages(sv, size)
 
 (* the required result                                                    *)
 (* k.suf: "end" - the key ends with the suffix; "mid" - the suffix occurs inside the key only;  *)
 (*        "none"                                                                                *)
 HasSuffix(k) == k.suf = "end"
-Listing(keys, prefixGiven) == SelectSeq(Served(keys, prefixGiven), HasSuffix)
+Listing(keys, prefixGiven, prefixKey) == SelectSeq(Served(keys, prefixGiven, prefixKey), HasSuffix)
 
 (* sources: all ways of loading one content agree                         *)
 SourcesAgree(outcomes) ==
